@@ -2,6 +2,7 @@
 Classes for solving the Boltzmann equations for out-of-equilibrium particles.
 """
 
+import os
 import sys
 import typing
 from copy import deepcopy
@@ -530,6 +531,11 @@ class BoltzmannSolver:
             # Liouville operator
             derivMatrixChi = derivMatrixChi.toarray()[1:-1, 1:-1]
             derivMatrixRz = derivMatrixRz.toarray()[1:-1, 1:-1]
+
+        if os.environ.get("WALLGO_VERIF"):
+            # verification hook (no effect unless WALLGO_VERIF is set): expose the three
+            # profile derivatives, which are otherwise consumed inside the source term
+            self._verifDerivatives = (dTemperaturedChi, dvdChi, dMsqdChi)
 
         # dot products with wall velocity
         gammaWall = 1 / np.sqrt(1 - velocityWall**2)
